@@ -185,13 +185,25 @@ def rand_manifest(rnd):
 
 def bake_hints(streams, mode):
     """Block ids become locators 10000*h+c (Manifest.tla): mode 0 no hints, 1 every block signed (+A),
-    2 the k-th block of the manifest gets hint class k % 4 (none, +A, +R, +Z+A+K)."""
+    2 the k-th block of the manifest gets hint class k % 4 (none, +A, +R, +Z+A+K), 3 every block +R (no +A
+    anywhere in the text), 4 alternately none and +R."""
     k = 0
     for s in streams:
         for j, b in enumerate(s["blocks"]):
-            h = 0 if mode == 0 else 1 if mode == 1 else k % 4
+            h = [0, 1, k % 4, 2, (k % 2) * 2][mode]
             s["blocks"][j] = 10000 * h + b % 10000
             k += 1
+
+
+def prefix_sibling_extracts(streams):
+    """(src, relocate) pairs where src is a directory whose path is a proper string prefix of another directory's
+    path without being its ancestor (./d and ./d1, './d' and './d e'): always asked."""
+    ds = dirs_of(paths_of(streams))
+    out = []
+    for d in ds:
+        if any(len(e) > len(d) and e[:len(d)] == d and e[len(d)] != SL for e in ds):
+            out += [{"src": list(d), "rel": r, "slash": sl} for (r, sl) in RELOCS[:2]]
+    return out
 
 
 def ref_bytes(streams, path):
@@ -463,7 +475,7 @@ def run(ctx):
         scns.append({"kind": "random", "streams": rand_manifest(rnd)})
     for i, s in enumerate(scns):
         s["id"] = i + 1
-        s["hints"] = i % 3
+        s["hints"] = i % 5
         bake_hints(s["streams"], s["hints"])
         s["rseed"] = ctx.seed * 1000003 + i
         s["mut"] = ""
@@ -474,6 +486,7 @@ def run(ctx):
         else:
             # normalisation always; plus a seeded sample of (src, relocate) pairs
             s["extracts"] = [{"src": [DOT], "rel": [DOT], "slash": False}] + rnd.sample(pairs, min(len(pairs), 2))
+            s["extracts"] += [x for x in prefix_sibling_extracts(s["streams"]) if x not in s["extracts"]]
     # single-token mutations of generated manifests
     nmut = 2400 if big else 320
     base = [s for s in scns if s["kind"] != "align"] + scns[:200]
